@@ -167,10 +167,10 @@ class Machine(object):
                 self.gcache[key] = mem
             init = self.gcache[key]
         r = Region('@' + name, 'global', size, init, writable=not g.const)
-        if g.init is not None and not g.const:
-            # a writable global: its content at the time of the call is not
-            # known (earlier calls may have changed it)
-            r.mem = {}
+        if not g.const:
+            # a writable global: its content at the time of the call is whatever earlier calls left there -
+            # symbolic, so that dependence on it shows up in the closed forms
+            r = Region('@' + name, 'sym', size, None, writable=True)
         self.w.regions['@' + name] = r
         return r
 
@@ -810,8 +810,13 @@ class Machine(object):
             if isinstance(b, int) and b == 0:
                 b = NULL
             if isinstance(a, Ptr) and isinstance(b, Ptr):
-                if isinstance(a.region, str) and a.region.startswith('?') or \
-                        isinstance(b.region, str) and b.region.startswith('?'):
+                if isinstance(a.region, str) and a.region[:1] in '?*' or \
+                        isinstance(b.region, str) and b.region[:1] in '?*':
+                    # unknown pointers, and pointers found in symbolic memory, may alias anything
+                    if a.region == b.region and a.off is not None and b.off is not None:
+                        return int(B.cmp_concrete(pred, a.off & B.mask(64), b.off & B.mask(64), 64))
+                    if (a.is_null or b.is_null) and (a.region or b.region)[:1] == '?':
+                        return TOP
                     return TOP
                 if a.region == b.region:
                     if a.off is None or b.off is None:
